@@ -79,6 +79,12 @@ def parse_frac(s):
     return Fraction(s)
 
 
+try:
+    sys.set_int_max_str_digits(0)     # exact rationals from the model can be thousands of digits long
+except AttributeError:
+    pass
+
+
 def parse_cfrac(s):
     a = s.split(",")
     re_ = Fraction(a[0])
